@@ -131,6 +131,9 @@ func lenBase(v ssa.Value) ssa.Value {
 	if r := loadRep(v); r != nil {
 		v = r
 	}
+	if r := paramFieldRep(v); r != nil {
+		v = r
+	}
 	for {
 		if r := storeFwd(v); r != nil {
 			v = r
@@ -3076,4 +3079,78 @@ func (lb *LB) proveAtBlock(b *ssa.BasicBlock, goals []cons, facts []cons, depth 
 	lb.curBlock = b
 	defer func() { lb.curBlock = saved }()
 	return lb.proveWith(goals, facts, map[lvar]lin{}, depth)
+}
+
+// paramFieldRep: all loads of one field of a pointer parameter denote the same value when the function never
+// stores to that field of any object of the type, never lets the field's address escape and never hands the
+// pointer to a call (other than the read-only marshal/equal helpers): the representative is a fixed load.
+var paramFieldRepCache = map[ssa.Value]ssa.Value{}
+
+func paramFieldRep(v ssa.Value) ssa.Value {
+	ld, ok := v.(*ssa.UnOp)
+	if !ok || ld.Op != token.MUL {
+		return nil
+	}
+	fa, ok := ld.X.(*ssa.FieldAddr)
+	if !ok {
+		return nil
+	}
+	prm, ok := fa.X.(*ssa.Parameter)
+	if !ok {
+		return nil
+	}
+	if r, ok := paramFieldRepCache[v]; ok {
+		return r
+	}
+	paramFieldRepCache[v] = nil
+	f := ld.Parent()
+	if f == nil {
+		return nil
+	}
+	clean := true
+	var loads []*ssa.UnOp
+	instrsOf(f, func(_ *ssa.BasicBlock, in ssa.Instruction) {
+		switch x := in.(type) {
+		case *ssa.Store:
+			if fx, ok := x.Addr.(*ssa.FieldAddr); ok && fx.Field == fa.Field && fx.X.Type() == fa.X.Type() {
+				clean = false
+			}
+			if fx, ok := x.Val.(*ssa.FieldAddr); ok && fx.Field == fa.Field && fx.X.Type() == fa.X.Type() {
+				clean = false
+			}
+		case ssa.CallInstruction:
+			for _, a := range x.Common().Args {
+				if a == ssa.Value(prm) {
+					if sc := x.Common().StaticCallee(); sc != nil && (sc.Name() == "marshal" || sc.Name() == "equal") {
+						continue
+					}
+					clean = false
+				}
+				if fx, ok := a.(*ssa.FieldAddr); ok && fx.Field == fa.Field && fx.X.Type() == fa.X.Type() {
+					clean = false
+				}
+			}
+		case *ssa.MakeClosure:
+			for _, b := range x.Bindings {
+				if b == ssa.Value(prm) {
+					clean = false
+				}
+			}
+		case *ssa.UnOp:
+			if x.Op == token.MUL {
+				if fx, ok := x.X.(*ssa.FieldAddr); ok && fx.X == ssa.Value(prm) && fx.Field == fa.Field {
+					loads = append(loads, x)
+				}
+			}
+		}
+	})
+	if !clean || len(loads) == 0 {
+		return nil
+	}
+	// representative: the first load in block order
+	rep := loads[0]
+	for _, l := range loads {
+		paramFieldRepCache[l] = rep
+	}
+	return rep
 }
